@@ -3,7 +3,7 @@
 #   demo passes on clean HEAD, fails with the patch; the existing suite passes with the patch.
 set -u
 ID="$1"; M="$2"; shift 2; FEAT="$*"
-WT=/tmp/seedwork/wt-$ID; OUT=/tmp/seedwork/out-$ID/$M
+WT=/tmp/seedwork/wt${R:-}-$ID; OUT=/tmp/seedwork/out${R:-}-$ID/$M
 export CARGO_NET_OFFLINE=true
 cd "$WT" || exit 2
 git checkout -q -- . ; git clean -fdq tests src 2>/dev/null
